@@ -40,14 +40,16 @@ import (
 // ---------------------------------------------------------------- names
 
 var fixedNames = map[string]string{
-	// a1 extends a0 and k1 extends k0 (prefix confusion); k2 looks like an account but has 14 digits
+	// a1 extends a0 and k1 extends k0 (prefix confusion); k2, k3, k4 look like accounts but are not
+	// (14 digits, 16 letters, 17 digits): IsAccount must classify them as addresses
 	"a0": "XC1111111111111111@xuper",
 	"a1": "XC1111111111111111@xuper1",
 	"a2": "XC2222222222222222@xuper",
 	"k0": "TeyyPLpp9L7QAcxHangtcHTu7HUZ6iydY",
 	"k1": "TeyyPLpp9L7QAcxHangtcHTu7HUZ6iydY1",
 	"k2": "XC11111111111111@xuper",
-	"k3": "SmJG3rH2ZzYQ9ojxhbRCPwFiE9y6pD1Co",
+	"k3": "XCabcdefghijklmnop@xuper",
+	"k4": "XC11111111111111111@xuper",
 }
 
 func validTok(t string) bool {
@@ -370,10 +372,57 @@ func check(out *xvlib.Out, op string, impl, spec bool, us []uri) {
 	if out == nil || impl == spec {
 		return
 	}
+	op, impl, spec, us = shrink(op, impl, spec, us)
 	out.Violate(xvlib.Violation{Key: classify(impl, spec, us),
 		What: fmt.Sprintf("the real evaluation answered %s but the rule is %s by the verified signers (sum of member weights / key sets over the last components)",
 			ar(impl), map[bool]string{true: "satisfied", false: "not satisfied"}[spec]),
 		Ops: []string{op}, Impl: []string{ar(impl)}})
+}
+
+// evalBoth runs one ida/cmp line on the real code and on the oracle.
+func evalBoth(f []string) (impl, spec bool, us []uri, ok bool) {
+	e, err := parseEnv(f[2])
+	if err != nil {
+		return
+	}
+	us, err = parseURIs(f[3])
+	if err != nil {
+		return
+	}
+	if f[0] == "ida" {
+		return implAccount(newMgr(e, nil), f[1], us), specAccount(f[1], e, us), us, true
+	}
+	r, err := parseRule(f[1])
+	if err != nil {
+		return
+	}
+	return implMethod(newMgr(e, r), us), specMethod(r, e, us), us, true
+}
+
+// shrink minimises a failing ida/cmp line: drop URIs, then env entries, while the real code still disagrees
+// with the oracle in the same direction.
+func shrink(op string, impl, spec bool, us []uri) (string, bool, bool, []uri) {
+	f := strings.Split(op, "|")
+	if len(f) != 4 {
+		return op, impl, spec, us
+	}
+	for changed := true; changed; {
+		changed = false
+		for field := 3; field >= 2; field-- {
+			parts := strings.Fields(f[field])
+			for i := 0; i < len(parts); i++ {
+				cand := append(append([]string{}, parts[:i]...), parts[i+1:]...)
+				g := []string{f[0], f[1], f[2], f[3]}
+				g[field] = strings.Join(cand, " ")
+				if i2, s2, u2, ok := evalBoth(g); ok && i2 == impl && s2 == spec {
+					f, us, parts = g, u2, cand
+					changed = true
+					i--
+				}
+			}
+		}
+	}
+	return strings.Join(f, "|"), impl, spec, us
 }
 
 // forMultisets enumerates all multisets of size <= max over a, canonical order (prefix first, then extensions by
